@@ -105,6 +105,12 @@ def gen_unknown_table(w, r):
     formed, unknown parts arbitrary bytes."""
     shape = r.choice(["leaf", "seq", "map", "tuple", "nested"])
     unk = (r.choice(auxm.UNKNOWN_NAMES), [])
+    x = r.random()
+    if x < 0.15:
+        unk = (unk[0], [(r.choice(["int8_t", "string", "UUID"]), [])])  # foo<int8_t>: an unknown name with parameters
+    elif x < 0.35:
+        # a KNOWN leaf name carrying a parameter list that involves an unknown name: uint16_t<vendor_ext>
+        unk = (r.choice(["uint16_t", "uint8_t", "int64_t", "string", "UUID", "bool"]), [unk])
     if shape == "leaf":
         t = unk
     elif shape == "seq":
@@ -121,6 +127,10 @@ def gen_unknown_table(w, r):
         n, subs = tt
         if n not in R.KNOWN:
             raw.extend(bytes(r.randrange(256) for _ in range(r.randrange(0, 6))))
+        elif n in R.LEAVES and subs:
+            # what the bare leaf would occupy, then bytes only the vendor understands
+            raw.extend(R.encode(auxm.gen_value(w, r, (n, [])), (n, []), auxm.w_uuid_of(w)))
+            raw.extend(bytes(r.randrange(256) for _ in range(r.randrange(0, 4))))
         elif n in ("sequence", "set"):
             k = r.choice([0, 1, 2])
             raw.extend(struct.pack("<Q", k))
@@ -331,10 +341,15 @@ def prepare_aux(w, snap, r, style):
                 from .ops_aux import classify_raw
 
                 c = classify_raw(raw, tn)
-                cv = None if c[0] == "blob" else c[1]
+                cv = None if c[0] in ("blob", "illparam") else c[1]
                 if c[0] == "value" and c[2] != len(raw):
                     continue
                 tables["u%d" % i] = {"type": tn, "cv": cv, "raw": raw, "type0": tn, "state": "untouched", "home": snap["ir"]}
+                if c[0] == "illparam":
+                    # decoding reaches a leaf codec that is handed parameters: what a read does is
+                    # not prescribed (today: DecodeError); the bytes must survive every save
+                    tables["u%d" % i]["illparam"] = True
+                    w.counters["probe:peer_illparam_tables"] += 1
                 w.counters["probe:peer_unknown_tables"] += 1
 
 
